@@ -928,7 +928,7 @@ func (c *c16case) coq() string {
 	if c.File {
 		entryDir, entryPath = c.Entry, ""
 	}
-	return fmt.Sprintf("%s, mkctx %s %s %s, pth %s", coqBool(c.File), coqRawStr(c16Gsrc), coqRawStr(entryDir), coqList(ps), coqRawStr(entryPath))
+	return fmt.Sprintf("%s, %s, mkctx %s %s %s, pth %s", coqBool(c.Region == ""), coqBool(c.File), coqRawStr(c16Gsrc), coqRawStr(entryDir), coqList(ps), coqRawStr(entryPath))
 }
 
 // outcome of one evaluation: the printed lines and the class of the error
